@@ -625,6 +625,24 @@ val with_depth : rstate -> nat -> rstate
 
 val add_seen : rstate -> string -> rstate
 
+type callback = value -> rstate -> (value * rstate) res
+
+val seq_loop : callback -> rstate -> value list -> nat -> value list res
+
+val vlist_loop : callback -> rstate -> value list -> value -> value res
+
+val map_loop : callback -> rstate -> entry list -> mapping -> mapping res
+
+val walk_loop :
+  callback -> string -> string list -> value -> rstate -> string list ->
+  (value * rstate) res
+
+val slice_loop :
+  (token -> rstate -> (value * rstate) res) -> callback -> callback -> rstate
+  -> token list -> string res
+
+val sov_loop : callback -> rstate -> value list -> value list res
+
 val interp : nat -> mapping -> value -> rstate -> (value * rstate) res
 
 val mapping_interp : nat -> mapping -> mapping -> rstate -> mapping res
